@@ -53,6 +53,8 @@ type Frame struct {
 	elemBases  []Term
 	callOrd  map[string]int
 	closures map[Term]closureInfo
+	curSliceTag int
+	elemRoot Term
 }
 
 type assignLoc struct {
@@ -401,7 +403,8 @@ func (fr *Frame) enterLoop(li *loopInfo, b *ssa.BasicBlock, st *State, in []edge
 		if err != nil {
 			continue
 		}
-		u.assumeRec(implies(hs.guard, t), rec)
+		lbl := inv.Label
+		u.tagged(lbl, func() { u.assumeRec(implies(hs.guard, t), rec) })
 	}
 	li.hdrSt = hs.clone()
 	u.cover(fr.oblFn, name+".head", fr.pos(firstPos(b)), hs.guard)
